@@ -231,10 +231,6 @@ class Chaos:
         for p in pools:
             for c in p.active:
                 if c.can_suspend and r.random() < k["p_sus"]:
-                    try:
-                        M.Arith(cfg["exact"]).fl(c.ram / 20 * cfg["tps"])
-                    except Discard:
-                        continue
                     cmds.append({"k": "sus", "ref": c.label, "pool": p.pid})
         av = [[p.av_cpu, p.av_ram] for p in pools]
         for bi, b in enumerate(self.built):
@@ -519,6 +515,11 @@ class Obs:
     def pool_victims(self, pool):
         return self.failed.get(pool.pid, [])
 
+    def suspend_ticks(self, c):
+        rc = self.real.get(c.label)
+        d = getattr(rc, "suspend_ticks", None)
+        return d if isinstance(d, int) else None
+
 
 def snapshot(ex, built):
     pools = []
@@ -636,6 +637,7 @@ def run(scn, rng=None):
                 scn["script"].append(cmds)
             # ---- scheduler phase: build the command objects ------------------
             rsus, msus, rasg, masg = [], [], [], []
+            sus_cmds = []
             tick_sig = []
             ended = False
             for cmd in cmds:
@@ -651,6 +653,7 @@ def run(scn, rng=None):
                     rid = rc.container_id if rc is not None else "c-none"
                     rsus.append(Suspend(rid, cmd["pool"]))
                     msus.append((cmd["pool"], mc))
+                    sus_cmds.append(cmd)
                     tick_sig.append("S!" + fault if fault else "S")
                     if fault:
                         out["faults"][fault] = out["faults"].get(fault, 0) + 1
@@ -728,34 +731,50 @@ def run(scn, rng=None):
                 sig.append(tick_sig)
                 break
             # ---- executor phase -------------------------------------------------
-            rexc = None
-            res = None
-            try:
-                res = ex.run_one_tick(rsus, [a for _, a in rasg])
-            except Exception as e:  # noqa: BLE001
-                rexc = e
-            if res is not None:
-                _map_new_containers(ex, res, rasg, obs, t)
-                obs.failed = {}
-                byid = {rc.container_id: l for l, rc in obs.real.items()}
-                for r_ in res:
-                    if r_.failed():
-                        l = byid.get(r_.container_id)
-                        if l is not None:
-                            obs.failed.setdefault(r_.pool_id, []).append(lab[l])
-            mrej = None
-            mres = None
-            try:
-                mres = mex.step(msus, masg, obs if res is not None else M.NoObs())
-            except M.Reject as rj:
-                mrej = rj
-            if mrej is not None:
+            stop = False
+            for attempt in (0, 1):
+                rexc = None
+                res = None
+                try:
+                    res = ex.run_one_tick(rsus, [a for _, a in rasg])
+                except Exception as e:  # noqa: BLE001
+                    rexc = e
+                if res is not None:
+                    _map_new_containers(ex, res, rasg, obs, t)
+                    obs.failed = {}
+                    byid = {rc.container_id: l for l, rc in obs.real.items()}
+                    for r_ in res:
+                        if r_.failed():
+                            l = byid.get(r_.container_id)
+                            if l is not None:
+                                obs.failed.setdefault(r_.pool_id, []).append(lab[l])
+                mrej = None
+                mres = None
+                try:
+                    mres = mex.step(msus, masg, obs if res is not None else M.NoObs())
+                except M.Reject as rj:
+                    mrej = rj
+                if mrej is None:
+                    break
                 tick_sig.append("X:" + mrej.kind)
                 if rexc is None:
                     raise Violation(REJECT_RULE[mrej.kind], {"kind": mrej.kind, "pool": mrej.pool, "info": str(mrej.info),
                                                             "cmds": cmds}, t)
                 _after_reject(mrej, ex, built, prev, t)
+                faulty = [i for i, cmd_ in enumerate(sus_cmds) if cmd_.get("fault")]
+                if attempt == 0 and mrej.kind == "suspend" and mrej.pool == 0 and mrej.info != "twice" and faulty:
+                    # A rejected suspension for the first pool aborts the tick before anything ran: the run goes on
+                    # without that request, and whatever the rejection left behind shows up in the ticks that follow.
+                    rsus = [x for i, x in enumerate(rsus) if i not in faulty]
+                    msus = [x for i, x in enumerate(msus) if i not in faulty]
+                    sus_cmds = [x for i, x in enumerate(sus_cmds) if i not in faulty]
+                    tick_sig.append("R")
+                    out["faults"]["continued_after_rejected_suspension"] = out["faults"].get("continued_after_rejected_suspension", 0) + 1
+                    continue
                 out["ended_by"] = "reject:" + mrej.kind
+                stop = True
+                break
+            if stop:
                 sig.append(tick_sig)
                 break
             if rexc is not None:
@@ -765,22 +784,36 @@ def run(scn, rng=None):
             acct["ok"] += sum(1 for r_ in res if not r_.failed())
             acct["fail"] += sum(1 for r_ in res if r_.failed())
             byid = {rc.container_id: l for l, rc in obs.real.items()}
-            got = [(byid.get(r_.container_id, r_.container_id), r_.failed()) for r_ in res]
-            want = [(c.label, bool(c.error)) for c in mres]
-            if got != want:
-                raise Violation("EX.results", {"got": got, "want": want}, t)
-            for r_ in res:
-                mc = lab[byid[r_.container_id]]
-                if r_.pool_id != mc.pool or r_.cpu != (int(mc.cpu) if mc.cpu.denominator == 1 else float(mc.cpu)) \
-                        or abs(r_.ram - float(mc.ram)) > TOL * max(1, float(mc.ram)):
-                    raise Violation("C09.result_fields", {"container": r_.container_id}, t)
-            check_results(res, t)
-            if log.bad is not None:
-                raise log.bad
-            invariants(ex, acct, t)
-            _compare_pools(ex, mex, obs, t)
-            _compare_states(built, t, "EX.states")
-            _check_counts(built, t)
+            # every oracle of the tick is evaluated; the first failure is raised, the others ride along in
+            # detail["also"] so that a check can claim the rule that belongs to its property
+            found = []
+
+            def _results():
+                got = [(byid.get(r_.container_id, r_.container_id), r_.failed()) for r_ in res]
+                want = [(c.label, bool(c.error)) for c in mres]
+                if got != want:
+                    raise Violation("EX.results", {"got": got, "want": want}, t)
+                for r_ in res:
+                    mc = lab[byid[r_.container_id]]
+                    if r_.pool_id != mc.pool or r_.cpu != (int(mc.cpu) if mc.cpu.denominator == 1 else float(mc.cpu)) \
+                            or abs(r_.ram - float(mc.ram)) > TOL * max(1, float(mc.ram)):
+                        raise Violation("C09.result_fields", {"container": r_.container_id}, t)
+
+            def _logbad():
+                if log.bad is not None:
+                    raise log.bad
+            checks = [_results, lambda: check_results(res, t), _logbad, lambda: invariants(ex, acct, t)]
+            checks += [lambda k=k: _compare_pools(ex, mex, obs, t, k) for k in ("lists", "free", "mem")]
+            checks += [lambda: _compare_states(built, t, "EX.states"), lambda: _check_counts(built, t)]
+            for chk in checks:
+                try:
+                    chk()
+                except Violation as v_:
+                    found.append(v_)
+            if found:
+                first = found[0]
+                first.detail = dict(first.detail, also=[{"rule": v_.rule, "detail": v_.detail} for v_ in found[1:]])
+                raise first
             prev = snapshot(ex, built)
             for c in mres:
                 tick_sig.append("F" if c.error else "K")
@@ -844,30 +877,35 @@ def _map_new_containers(ex, res, rasg, obs, t):
             obs.real[l] = _Gone(rh[0].container_id)
 
 
-def _compare_pools(ex, mex, obs, t):
+def _compare_pools(ex, mex, obs, t, part=None):
     for p, mp in zip(ex.pools, mex.pools):
         sc = max(1.0, float(mp.cap_ram))
-        if abs(p.avail_cpu_pool - float(mp.av_cpu)) > TOL * max(1.0, float(mp.cap_cpu)):
-            raise Violation("C03.model.free_cpu", {"pool": p.pool_id, "got": p.avail_cpu_pool, "want": float(mp.av_cpu)}, t)
-        if abs(p.avail_ram_pool - float(mp.av_ram)) > TOL * max(sc, abs(float(mp.av_ram))):
-            raise Violation("C03.model.free_ram", {"pool": p.pool_id, "got": p.avail_ram_pool, "want": float(mp.av_ram)}, t)
-        for name, rl, ml in (("active", p.active_containers, mp.active),
-                             ("suspending", p.suspending_containers, mp.suspending),
-                             ("suspended", p.suspended_containers, mp.suspended)):
-            got = [c.container_id for c in rl]
-            want = [obs.real[c.label].container_id for c in ml]
-            if got != want:
-                raise Violation("EX.lists." + name, {"pool": p.pool_id, "got": got, "want": want}, t)
-        tot = F(0)
-        for rc, mc in zip(p.active_containers, mp.active):
-            m = rc.get_current_memory_usage()
-            if abs(m - float(mc.mem)) > TOL * max(1.0, float(mc.mem)):
-                raise Violation("C05.mem", {"container": rc.container_id, "got": m, "want": float(mc.mem)}, t)
-            if bool(rc.can_suspend_container()) != mc.can_suspend:
-                raise Violation("C10.boundary_flag", {"container": rc.container_id, "got": bool(rc.can_suspend_container()), "want": mc.can_suspend}, t)
-            tot += mc.mem
-        if abs(p.get_consumed_ram_gb() - float(tot)) > TOL * max(sc, float(tot)):
-            raise Violation("C04.report.model", {"pool": p.pool_id, "reported": p.get_consumed_ram_gb(), "want": float(tot)}, t)
+        if part in (None, "lists"):
+            for name, rl, ml in (("active", p.active_containers, mp.active),
+                                 ("suspending", p.suspending_containers, mp.suspending),
+                                 ("suspended", p.suspended_containers, mp.suspended)):
+                got = [c.container_id for c in rl]
+                want = [obs.real[c.label].container_id for c in ml]
+                if got != want:
+                    raise Violation("EX.lists." + name, {"pool": p.pool_id, "got": got, "want": want}, t)
+        if part in (None, "free"):
+            if abs(p.avail_cpu_pool - float(mp.av_cpu)) > TOL * max(1.0, float(mp.cap_cpu)):
+                raise Violation("C03.model.free_cpu", {"pool": p.pool_id, "got": p.avail_cpu_pool, "want": float(mp.av_cpu)}, t)
+            if abs(p.avail_ram_pool - float(mp.av_ram)) > TOL * max(sc, abs(float(mp.av_ram))):
+                raise Violation("C03.model.free_ram", {"pool": p.pool_id, "got": p.avail_ram_pool, "want": float(mp.av_ram)}, t)
+        if part in (None, "mem"):
+            if [c.container_id for c in p.active_containers] != [obs.real[c.label].container_id for c in mp.active]:
+                continue
+            tot = F(0)
+            for rc, mc in zip(p.active_containers, mp.active):
+                m = rc.get_current_memory_usage()
+                if abs(m - float(mc.mem)) > TOL * max(1.0, float(mc.mem)):
+                    raise Violation("C05.mem", {"container": rc.container_id, "got": m, "want": float(mc.mem)}, t)
+                if bool(rc.can_suspend_container()) != mc.can_suspend:
+                    raise Violation("C10.boundary_flag", {"container": rc.container_id, "got": bool(rc.can_suspend_container()), "want": mc.can_suspend}, t)
+                tot += mc.mem
+            if abs(p.get_consumed_ram_gb() - float(tot)) > TOL * max(sc, float(tot)):
+                raise Violation("C04.report.model", {"pool": p.pool_id, "reported": p.get_consumed_ram_gb(), "want": float(tot)}, t)
 
 
 def _compare_states(built, t, rule):
